@@ -84,6 +84,7 @@ class Engine:
         self.counter = itertools.count()
         self.feas_cache = {}
         self.stats = {"feas_checks": 0, "paths": 0}
+        self.called = set()       # contracted callees used modularly (their contracts are dependencies)
         self.start_path([])
 
     # ------------------------------------------------------------ path state
